@@ -6,6 +6,10 @@ import numpy as np
 
 
 def create_build_finer_grid_fun(epsilon: float, maturity: float):
+    # a gap equal to a multiple of epsilon up to rounding is not split once more (that left a step of size ~0, or even a
+    # repeated / decreasing time)
+    cap = epsilon * (1 + 1e-12)
+
     def _build_finer_grid_default(
         self, jump_times, fines_states_values, coarse_states_values
     ):
@@ -22,10 +26,10 @@ def create_build_finer_grid_fun(epsilon: float, maturity: float):
         fines_states_values = np.asarray(fines_states_values)
         coarse_states_values = np.asarray(coarse_states_values)
         dts = np.diff(np.append(jump_times, maturity), prepend=0)
-        if not any(dts > epsilon):
+        if not any(dts > cap):
             return jump_times, fines_states_values, coarse_states_values
         else:
-            positions = np.nonzero(dts > epsilon)[0]
+            positions = np.nonzero(dts > cap)[0]
             aug_fine_js = np.concatenate(
                 (fines_states_values, _last_value(fines_states_values)), axis=-1
             )
@@ -48,7 +52,7 @@ def create_build_finer_grid_fun(epsilon: float, maturity: float):
                     np.where(positions == 0, 0, aug_coarse_js[..., positions - 1]),
                     axis=-1,
                 )
-                positions = np.nonzero(aug_dts > epsilon)[0]
+                positions = np.nonzero(aug_dts > cap)[0]
             aug_jump_times = np.cumsum(aug_dts)
 
             return aug_jump_times[:-1], aug_fine_js[..., :-1], aug_coarse_js[..., :-1]
